@@ -233,6 +233,40 @@ def r18_5_inverse_pairs(repo: Repo, rep: Report):
         rep.check("R18.5", ok, m, ps, "ParseErrorCodes: '*' <-> empty set; hex writer / base-0 reader", "error-code wildcard or number base no longer round-trips")
 
 
+def _pattern_of(call):
+    a = call.args[0] if call.args else None
+    return a.value if isinstance(a, ast.Constant) and isinstance(a.value, str) else None
+
+
+def _name_class(pattern: str):
+    """the sub-pattern that matches a parameter name: what stands between the first group opening and the first `=`"""
+    p = pattern.lstrip("^")
+    while p.startswith("("):
+        p = p[1:]
+    if "=" not in p:
+        return None
+    head = p.split("=", 1)[0]
+    # the `=` inside a negated class like [^=,{}] is not the separator
+    if head.count("[") > head.count("]"):
+        rest = p[len(head) + 1:]
+        if "=" not in rest:
+            return None
+        head = head + "=" + rest.split("=", 1)[0]
+    return head.rstrip(")")
+
+
+def r18_6b_array_length_patterns(repo: Repo, rep: Report, rule="R18.6"):
+    """--array-lengths: the validating pattern and the extracting pattern accept the same parameter names, so that
+    whatever passes validation is extracted whole (a narrower extractor stores `s.data` under `data`)"""
+    m, al = repo.fn("config.ParseArrayLengths.parse")
+    pre = [c for c in body_walk(al) if isinstance(c, ast.Call) and src(c.func) in ("re.match", "re.fullmatch")]
+    fa = [c for c in body_walk(al) if isinstance(c, ast.Call) and src(c.func) in ("re.findall", "re.finditer")]
+    if len(pre) != 1 or len(fa) != 1 or _pattern_of(pre[0]) is None or _pattern_of(fa[0]) is None:
+        raise AnalysisError("ParseArrayLengths.parse: validating / extracting pattern not found")
+    a, b = _name_class(_pattern_of(pre[0])), _name_class(_pattern_of(fa[0]))
+    rep.check(rule, a is not None and a == b, m, fa[0], f"name sub-pattern of the validator {a!r} == of the extractor {b!r}", "validation and extraction disagree on what a parameter name is: a validated name is extracted in part and its size candidates are stored under another name (never looked up, defaults used silently)")
+
+
 def r18_6_rejection(repo: Repo, rep: Report):
     rep.rule("R18.6", "malformed values are rejected: non-empty lists, format pre-check, unknown keys, unambiguous time suffixes")
     m = repo.mod("config")
@@ -250,13 +284,32 @@ def r18_6_rejection(repo: Repo, rep: Report):
     fa = [c for c in body_walk(al) if isinstance(c, ast.Call) and src(c.func) == "re.findall"]
     ok = len(pre) == 1 and len(fa) == 1 and pre[0].lineno < fa[0].lineno and src(pre[0].test).startswith("not ")
     rep.check("R18.6", ok, m, pre[0] if pre else al, "format pre-check (raise) before findall", "without the pre-check findall silently ignores malformed parts")
+    r18_6b_array_length_patterns(repo, rep)
     _, wo = repo.fn("config.Config.with_overrides")
     hs = [h for t in body_walk(wo) if isinstance(t, ast.Try) for h in t.handlers]
     ok = any(src(h.type) == "TypeError" and "sys.exit(2)" in src(h) for h in hs)
     rep.check("R18.6", ok, m, wo, "unknown option key -> sys.exit(2)", "an unknown key must be an error")
     _, pdict = repo.fn("config.TomlParser.parse_dict")
     t = src(pdict)
-    ok = t.count("sys.exit(2)") >= 2 and "action.parse(value) if action else value" in t and "key.replace('-', '_')" in t
+    # form-independent: a `<A>.parse(<v>)` whose receiver is bound (assignment or walrus) to `actions.get(<key>)`, chosen
+    # by the truthiness of <A> with the raw value as the alternative; keys are normalised '-' -> '_'
+    binds = {}
+    for n in body_walk(pdict):
+        if isinstance(n, ast.Assign) and len(n.targets) == 1 and isinstance(n.targets[0], ast.Name):
+            binds.setdefault(n.targets[0].id, []).append(n.value)
+        elif isinstance(n, ast.NamedExpr):
+            binds.setdefault(n.target.id, []).append(n.value)
+    def _via_actions(name):
+        vs = binds.get(name, [])
+        return len(vs) == 1 and isinstance(vs[0], ast.Call) and src(vs[0].func) == "actions.get" and len(vs[0].args) == 1
+    chosen = False
+    for n in body_walk(pdict):
+        if isinstance(n, ast.IfExp) and isinstance(n.body, ast.Call) and last_attr(n.body) == "parse" and isinstance(n.body.func.value, ast.Name) and _via_actions(n.body.func.value.id) and len(n.body.args) == 1:
+            a = n.body.func.value.id
+            tst = n.test.target.id if isinstance(n.test, ast.NamedExpr) else (n.test.id if isinstance(n.test, ast.Name) else None)
+            chosen = chosen or (tst == a and src(n.orelse) == src(n.body.args[0]))
+    norm = any(isinstance(c, ast.Call) and last_attr(c) == "replace" and [src(x) for x in c.args] == ["'-'", "'_'"] for c in body_walk(pdict))
+    ok = t.count("sys.exit(2)") >= 2 and chosen and norm
     rep.check("R18.6", ok, m, pdict, "toml: single [global] section enforced; structured values go through the action's parse", "toml values bypass validation")
     # parse_time
     mu, pt = repo.fn("utils.parse_time")
@@ -296,6 +349,19 @@ def r18_6_rejection(repo: Repo, rep: Report):
     _, tp = repo.fn("config.ParseTimeout.parse")
     ok = "parse_time(values, default_unit='ms')" in src(tp)
     rep.check("R18.6", ok, m, tp, "ParseTimeout.parse -> parse_time(values, default_unit='ms')", "timeouts without a unit must be milliseconds")
+
+
+def r18_9_per_function_config(repo: Repo, rep: Report):
+    rep.rule("R18.9", "inside run_tests every option value used for a test is read from that test's own configuration (with_devdoc), not from the contract-level one")
+    m, rt = repo.fn("__main__.run_tests")
+    diagnostic = {"debug", "debug_config"}  # printing only: no effect on what is explored or reported
+    cfgs = [st for st in body_walk(rt) if isinstance(st, ast.Assign) and isinstance(st.value, ast.Call) and call_name(st.value) == "with_devdoc"]
+    ok = len(cfgs) == 1 and src(cfgs[0].targets[0]) == "test_config" and src(cfgs[0].value.args[0]) == "args" and any(isinstance(a, ast.For) and src(a.iter) == "funsigs" for a in m.ancestors(cfgs[0]))
+    rep.check("R18.9", ok, m, cfgs[0] if cfgs else rt, "test_config = with_devdoc(args, funsig, ...) once per test function", "the per-function layer must be built from the contract-level configuration for every test, into its own name")
+    reads = [n for n in body_walk(rt) if isinstance(n, ast.Attribute) and isinstance(n.ctx, ast.Load) and isinstance(n.value, ast.Name) and n.value.id == "args"]
+    for n in reads:
+        rep.check("R18.9", n.attr in diagnostic, m, n, f"run_tests reads args.{n.attr}", f"option `{n.attr}` is taken from the contract-level configuration: a function-level @custom:halmos override of it is shown in the test's configuration but not used")
+    rep.floor("R18.9", 2, "configuration reads in run_tests")
 
 
 def r18_8_parser_defaults_and_scoping(repo: Repo, rep: Report):
@@ -376,4 +442,4 @@ def r18_7_override_forwarding(repo: Repo, rep: Report):
     rep.floor("R18.7", 3, "with_overrides(**...) call sites")
 
 
-RULES = [r18_1_source_order, r18_2_lookup, r18_3_layer_sources, r18_4_scoping, r18_5_inverse_pairs, r18_6_rejection, r18_7_override_forwarding, r18_8_parser_defaults_and_scoping]
+RULES = [r18_1_source_order, r18_2_lookup, r18_3_layer_sources, r18_4_scoping, r18_5_inverse_pairs, r18_6_rejection, r18_7_override_forwarding, r18_8_parser_defaults_and_scoping, r18_9_per_function_config]
